@@ -128,10 +128,20 @@ func C10(tier common.Tier) int {
 		}
 	}
 	go func() { defer wg.Done(); c10OnDisk(run, root, thorough, deadline); phase("on-disk modules") }()
-	go func() { defer wg.Done(); c10Generated(run, root, thorough); phase("generated programs") }()
+	// the generated programs are analysed in this process; with a single worker the std part
+	// runs in this process too, and the configuration is process-wide, so they must not overlap
+	single := common.NumWorkers() <= 1
+	if !single {
+		go func() { defer wg.Done(); c10Generated(run, root, thorough); phase("generated programs") }()
+	}
 	os.Setenv("MC_C10_DEADLINE", fmt.Sprint(deadline.Unix()))
 	common.Sharded(run, common.NumWorkers(), func(r *common.Run, sh common.Shard) { c10StdWorker(r, sh, thorough) })
 	phase("std in-process")
+	if single {
+		c10Generated(run, root, thorough)
+		phase("generated programs")
+		wg.Done()
+	}
 	wg.Wait()
 	return run.Finish()
 }
